@@ -270,7 +270,7 @@ def run(chk, only=None):
         "expected_back_ends / external-only attributes (undocumented or 'unstable')",
         "a fixed-size struct or bits placed in a LARGER field is legal (language-reference, $size_in_bytes / "
         "$size_in_bits sections)",
-        "the reference's own examples `[$default enum_case: ...]` without the (cpp) qualifier are taken as legal",
+        "`enum_case` is the C++ back end's attribute `(cpp) enum_case`; without the qualifier it must be rejected",
         "error location (secondary clause): some non-synthetic error must lie within the top-level definition "
         "(or the module attribute block) that contains a broken rule",
     ]
